@@ -329,6 +329,19 @@ impl Engine for C06 {
                 let after = if gi % 2 == 0 { vec![] } else { vec![simple_rec(130 + bi, false, if gi % 4 == 1 { Via::LibSync } else { Via::LibAsync })] };
                 out.push(Case { keys: keys.clone(), recs: recs.clone(), damages: vec![BDamage::GarbageTail { total, line, salt: (bi * 7 + gi) as u64 }], after });
             }
+            // big records (the bucket passes 256 KiB and 1 MiB), a record of a foreign key deep
+            // inside, a torn tail, then appends: nothing in front of the tear may be lost
+            if bi == 0 {
+                let r = Via::Ref { ascii: false, reversed: false };
+                for (vi, raw_len) in [30_000usize, 120_000].into_iter().enumerate() {
+                    let big = |i: usize, key: usize, via: Via| RecSpec { key, raw: Some(crate::gen::huge_raw_meta(raw_len + i, i as u8)), ..simple_rec(150 + i, false, via) };
+                    let recs_big = vec![big(0, 0, Via::LibSync), big(1, 0, Via::LibAsync), big(2, 0, r), RecSpec { key: 1, ..big(3, 1, r) }, big(4, 0, Via::LibSync)];
+                    for (ti, tail) in [BDamage::AppendRaw(b"\n0123456789abcdef\t{\"key\":\"k\",\"integ".to_vec()), BDamage::GarbageTail { total: 3000, line: 700, salt: 9 }, BDamage::AppendRaw(vec![0xff; 40])].into_iter().enumerate() {
+                        let via = if (vi + ti) % 2 == 0 { Via::LibSync } else { Via::LibAsync };
+                        out.push(Case { keys: keys.clone(), recs: recs_big.clone(), damages: vec![tail], after: vec![simple_rec(160 + ti, false, via), simple_rec(170 + ti, true, via)] });
+                    }
+                }
+            }
             // one garbage line whose length sits on / next to a power of two, then a valid record
             if bi == 0 {
                 for (gi, l) in [65535usize, 65536, 65537, (1 << 20) - 1, 1 << 20, (1 << 24) - 2, (1 << 24) - 1, 1 << 24, (1 << 24) + 1].into_iter().enumerate() {
@@ -422,6 +435,17 @@ impl Engine for C06 {
                 let mut expect = before_append.clone();
                 expect.extend(reffmt::encode_record(&rec, EmitStyle { ascii: false, reversed: false }));
                 st.eval(1);
+                if ref_listing(&expect) != ref_listing(&after_append) {
+                    return Err(format!(
+                        "after damage {:?}, append #{i} {:?}: the bucket file ({} -> {} bytes) lost or gained entries: it lists {:?}, its valid records plus the appended one imply {:?}",
+                        c.damages,
+                        r.via,
+                        before_append.len(),
+                        after_append.len(),
+                        ref_listing(&after_append).iter().map(|m| (&m.key, &m.time)).collect::<Vec<_>>(),
+                        ref_listing(&expect).iter().map(|m| (&m.key, &m.time)).collect::<Vec<_>>()
+                    ));
+                }
                 for k in &c.keys {
                     let (want, got) = (ref_lookup(&expect, k), ref_lookup(&after_append, k));
                     if want != got {
